@@ -43,6 +43,12 @@ func runC20(r *Run) {
 		r.Emit(fmt.Sprintf("C20 map %d", srv), fmt.Sprint(uint8(acct.State)))
 		r.Count(fmt.Sprintf("map/%v", acct.State))
 	}
+	runC20Sweeps(r)
+	for ver := 0; ver <= 2; ver++ {
+		for knows := 0; knows <= 1; knows++ {
+			lcRecoverReservation(r, ver, knows == 1)
+		}
+	}
 	rounds := 1
 	if r.Tier != "quick" {
 		rounds = 3
@@ -189,5 +195,84 @@ func lcRecoverCase(r *Run, srv, ver int, knows, inLatest bool) {
 			(reportedState == account.StateInitiated || inLatest) {
 			bad("after recovery: "+what, "C20/"+key)
 		}
+	}
+}
+
+// lcRecoverReservation: an account the auctioneer only knows as a reservation
+// (the trader lost its data before InitAccount reached the auctioneer) is
+// rebuilt by the REAL key sweep (AcctResNotCompletedErrFromRPC,
+// incompleteAcctFromErr) and recovered by the REAL manager.
+func lcRecoverReservation(r *Run, ver int, knows bool) {
+	e := newLcEnv(r)
+	defer e.close()
+	if err := e.mgr.Start(); err != nil {
+		r.Violate("manager does not start: "+err.Error(), "C20/harness", nil)
+		return
+	}
+	e.started = true
+	e.deliverBlock(1001)
+	e.height = 1001
+	accts, _, err := c20Sweep("r", uint32(ver), nil)
+	if err != nil || len(accts) != 1 {
+		r.Violate(fmt.Sprintf("sweep of a reservation-only key failed: %v (%d accounts)", err, len(accts)), "C20/sweep-error", ver)
+		return
+	}
+	acct := accts[0]
+	id := e.acctID(acct.TraderKey.PubKey)
+	// the output the trader funded for this reservation
+	onChain := &account.Account{
+		Value: 500000, Expiry: 5000, TraderKey: acct.TraderKey, AuctioneerKey: lcAuctKey,
+		BatchKey: lcBatchKey, Secret: lcSecret, Version: account.Version(ver),
+	}
+	out, err := onChain.Output()
+	if err != nil {
+		r.Violate("no output script: "+err.Error(), "C20/harness", nil)
+		return
+	}
+	fundTx := wire.NewMsgTx(2)
+	fundTx.AddTxIn(&wire.TxIn{Witness: wire.TxWitness{[]byte{1}, []byte{2}}})
+	fundTx.AddTxOut(&wire.TxOut{Value: 4242, PkScript: lcP2WKH})
+	fundTx.AddTxOut(out)
+	e.txName(fundTx.TxHash()) // 1
+	if knows {
+		e.wallet.txs = append(e.wallet.txs, lndclient.Transaction{Tx: fundTx})
+	}
+	e.logMu.Lock()
+	logFrom := len(e.log)
+	e.logMu.Unlock()
+	rerr := lcGuard(func() error { return e.mgr.RecoverAccount(context.Background(), acct) })
+	line := fmt.Sprintf("recoverres %d %d %d", id, ver, b2i(knows))
+	outLine := fmt.Sprintf("%s | %s | %s", lcRes(rerr), e.dump(), e.effects(logFrom))
+	r.Emit("C20 "+line, outLine)
+	r.Evaluations++
+	r.Distinct(line)
+	bad := func(what, key string) {
+		r.Count("oracle/violation")
+		r.Violate(line+": "+what, key, map[string]interface{}{"reservation": true, "ver": ver, "knows": knows})
+	}
+	if e.wallet.fundCalls != 0 || e.wallet.pubCalls != 0 {
+		bad("recovery moved funds", "C20/funds-moved")
+	}
+	rec, err := e.db.Account(acct.TraderKey.PubKey)
+	if err != nil {
+		bad("no record stored", "C20/no-record")
+		return
+	}
+	r.Count(fmt.Sprintf("reservation/%v", rec.State))
+	if !knows {
+		if rec.State != account.StateCanceledAfterRecovery {
+			bad(fmt.Sprintf("unfunded reservation stored as %v", rec.State), "C20/not-canceled")
+		}
+		return
+	}
+	recOut, _ := rec.Output()
+	if rec.State != account.StatePendingOpen || rec.OutPoint.Hash != fundTx.TxHash() || rec.OutPoint.Index != 1 ||
+		recOut == nil || !bytes.Equal(recOut.PkScript, out.PkScript) {
+		bad(fmt.Sprintf("the wallet knows the funding tx of the reserved version-%d account, but the record is %v at %v "+
+			"(expected pending open at %v:1 with the funded script)", ver, rec.State, rec.OutPoint, fundTx.TxHash()),
+			"C20/reservation-not-recovered")
+	}
+	if len(e.notifier.liveRegs(id, true)) == 0 {
+		bad("recovered reservation is not watched for its confirmation", "C20/i2")
 	}
 }
